@@ -32,7 +32,7 @@ META = {
                   "frameworks by design). TensorFlow is not installed. The multi_dispatch branch taken is inferred from the interface of the "
                   "arguments, not instrumented.",
     "shards": {"quick": 2, "thorough": 16},
-    "budget_s": {"quick": 110, "thorough": 480},
+    "budget_s": {"quick": 110, "thorough": 300},
     "min_evals": {"quick": 2500, "thorough": 40000},
     "min_nontrivial": {"quick": 150, "thorough": 1500},
     "deciding": ["math.value", "math.iface", "math.grad", "math.contract"],
@@ -112,6 +112,9 @@ def recipes(rng, qp, dims=None):
     add(R("dot/2d-2d", [A(rng, n, m, kind=ck), A(rng, m, k, kind=ck)], lambda q, T: q.dot(T[0], T[1]), lambda T: np.dot(T[0], T[1]), grad=ck == "f", cls="dot"))
     add(R("dot/Nd-Md", [A(rng, B, n, m), A(rng, k, m, 2)], lambda q, T: q.dot(T[0], T[1]), lambda T: np.dot(T[0], T[1]), grad=True, cls="dot"))
     add(R("dot/1d-2d", [A(rng, m), A(rng, m, k)], lambda q, T: q.dot(T[0], T[1]), lambda T: np.dot(T[0], T[1]), grad=True, cls="dot"))
+    add(R("dot/float-complex", [A(rng, n, m), A(rng, m, kind="c")], lambda q, T: q.dot(T[0], T[1]), lambda T: np.dot(T[0], T[1]), mixed=True, cls="dot"))
+    add(R("stack/float-complex", [A(rng, m), A(rng, m, kind="c")], lambda q, T: q.stack([T[0], T[1]]), lambda T: np.stack(T), cls="stack"))
+    add(R("concatenate/int-complex", [A(rng, m, kind="i"), A(rng, 2, kind="c")], lambda q, T: q.concatenate([T[0], T[1]]), lambda T: np.concatenate(T), cls="concatenate"))
     add(R("dot/int-float", [A(rng, m, kind="i"), A(rng, m)], lambda q, T: q.dot(T[0], T[1]), lambda T: np.dot(T[0], T[1]), cls="dot"))
     add(R("tensordot/axes=1", [A(rng, n, m, kind=ck), A(rng, m, k, kind=ck)], lambda q, T: q.tensordot(T[0], T[1], axes=1), lambda T: np.tensordot(T[0], T[1], axes=1),
           grad=ck == "f", mixed=True, cls="tensordot"))
